@@ -146,6 +146,11 @@ impl FiberPool {
         let runtime = tokio::runtime::Handle::try_current()
             .map_err(|_| ZiporaError::configuration("no tokio runtime found"))?;
 
+        // with zero permits no fiber could ever start: every spawn would wait for ever
+        if config.max_fibers == 0 {
+            return Err(ZiporaError::invalid_data("max_fibers cannot be zero"));
+        }
+
         let semaphore = Arc::new(Semaphore::new(config.max_fibers));
         let stats = Arc::new(FiberPoolStats::new());
 
@@ -280,7 +285,7 @@ impl FiberPool {
         }
 
         // Divide into chunks for parallel processing
-        let chunk_size = std::cmp::max(1, items.len() / self.config.max_workers);
+        let chunk_size = std::cmp::max(1, items.len() / self.config.max_workers.max(1));
         let chunks: Vec<Vec<T>> = items.chunks(chunk_size).map(|c| c.to_vec()).collect();
 
         let handles: Vec<_> = chunks
